@@ -129,7 +129,7 @@ def check(ctx):
     while grew:
         grew = False
         for p, adt in prog.adts.items():
-            if p in holding_adts or p in owned_elsewhere or p.split("::")[-1] in HANDLE_TYPES or p.endswith("AutoDespawnSignalInner"):
+            if p in holding_adts or p in owned_elsewhere or p.split("::")[-1] in HANDLE_TYPES or p.endswith(A.signal_payload_name(prog)):
                 continue
             for v in adt["variants"]:
                 for f in v["fields"]:
@@ -137,7 +137,7 @@ def check(ctx):
                         holding_adts.add(p)
                         grew = True
     for p, adt in prog.adts.items():
-        if p.split("::")[-1] in HANDLE_TYPES or p.endswith("AutoDespawnSignalInner"):
+        if p.split("::")[-1] in HANDLE_TYPES or p.endswith(A.signal_payload_name(prog)):
             continue
         for v in adt["variants"]:
             for f in v["fields"]:
